@@ -230,7 +230,10 @@ class C11(Check):
         where = f"notation={notation} idgen={spec['id_gen']} plan={jg.short(spec['plan'], 300)}"
         discs = []
         for key in ('sent', 'outcomes', 'log'):
-            if not jg.jeq(obs[0][key], obs[1][key]):
+            # the async run's coroutine methods really suspend once (see C07), so concurrent batch elements may record their
+            # executions in another order: executions are compared as multisets, everything else as sequences
+            same = sh._multiset_eq(obs[0][key], obs[1][key]) if key == 'log' else jg.jeq(obs[0][key], obs[1][key])
+            if not same:
                 discs.append(Disc(f"C11/client-notation/{key}", f"sync {jg.short(obs[0][key], 350)} vs async {jg.short(obs[1][key], 350)} | {where}"))
                 break
         nontrivial = len(spec['plan']) >= 2 or any(k == 'exc' for k, _ in obs[0]['outcomes'])
